@@ -350,7 +350,8 @@ static void c07Case(Rng &rng, CaseResult &r, const std::string &profile, bool pa
     rl.lineReoptSize = std::min(rl.lineReoptSize, 6); rl.lineReoptOverlap = std::min(rl.lineReoptOverlap, std::max(1, rl.lineReoptSize - 1));
     rl.diagReoptSize = std::min(rl.diagReoptSize, 6); rl.diagReoptOverlap = std::min(rl.diagReoptOverlap, std::max(1, rl.diagReoptSize - 1));
     rl.squareReoptSize = std::min(rl.squareReoptSize, 3); rl.squareReoptOverlap = std::min(rl.squareReoptOverlap, std::max(1, rl.squareReoptSize - 1));
-    params.global.maxNbSteps = std::min(params.global.maxNbSteps, 10);
+    params.global.maxNbSteps = std::min(params.global.maxNbSteps, 6);
+    rl.nbSteps = std::min(rl.nbSteps, 1);
     try { params.check(); } catch (const std::exception &) { rl.lineReoptSize = 2; rl.lineReoptOverlap = 1; }
   }
   int stages = (int)rng.range(1, 7);  // bit0 global, bit1 legalize, bit2 detailed
@@ -604,8 +605,8 @@ int main(int argc, char **argv) {
     add("c11.relegalize." + prof, [prof](uint64_t, Rng &rng, CaseResult &r) { flowCase(rng, r, prof, O_C11); });
   add("c11.constructed", [](uint64_t, Rng &rng, CaseResult &r) { c11Constructed(rng, r); });
   for (std::string prof : {"general", "degenerate", "big", "wide", "dense", "multirow", "obstruction", "floating"})
-    add("c07." + prof, [prof](uint64_t, Rng &rng, CaseResult &r) { c07Case(rng, r, prof, false); }, 60);
-  add("c07.paramfuzz", [](uint64_t, Rng &rng, CaseResult &r) { c07Case(rng, r, "general", true); }, 60);
+    add("c07." + prof, [prof](uint64_t, Rng &rng, CaseResult &r) { c07Case(rng, r, prof, false); }, 120);
+  add("c07.paramfuzz", [](uint64_t, Rng &rng, CaseResult &r) { c07Case(rng, r, "general", true); }, 120);
   add("c10.enum", [](uint64_t, Rng &rng, CaseResult &r) { c10Case(rng, r); }, 60);
   return vf::runMain(argc, argv, parts);
 }
